@@ -455,6 +455,73 @@ def ch_vod_gate(ctx) -> Channel:
     return ch
 
 
+# ====================================================================== clients
+
+def ch_clients(ctx) -> Channel:
+    """multi-client histories: B never asked for an error"""
+    import appboot
+    import c16_clients as C
+    import c16_http
+    ch = Channel("clients", rule=(
+        "multi-client histories for 'injected errors fire for the addressed requests and for no other': on "
+        "every entry route that leads to media (v3 manifests vod/live, the legacy redirects /dash/<name>.mpd "
+        "and /dash/<stream>/<name>.mpd for hand_made / manifest_vod / enc, multi-period manifests, the player "
+        "pages for streams and multi-period streams) client B plays the entry (follows redirects, reads the "
+        "manifest it is given with the independent MPD reader, requests init and the first media segments with "
+        "the URLs the manifest spells out), client A plays it with injection options (verr / aerr / terr / merr "
+        "/ failures / vcorrupt / drm / events), B plays it again - separate cookie jars, orders B-A-B and A-B; "
+        "oracle: B never receives a synthetic error or a 5xx, and no redirect target, manifest URL or player "
+        "page URL B is given carries an option only A sent; the process-wide constants (module-level "
+        "UPPER_CASE names and every module / class level dict, list, set, tuple of dashlive.server."
+        "requesthandler.*, options.*, routes, manifests, events.*, drm.*, mpeg.dash.*) are compared after every "
+        "request and a change is reported with the request that caused it; non-trivial = a history in which A "
+        "received at least one synthetic answer or B was redirected; distinct by (entry, A's options, order)"))
+    app = c16_http.world()
+    P = c16_http.pools(app)
+    rng = ctx.rng("clients")
+    E = C.entries(P)
+    jobs = []
+    for i, e in enumerate(E):
+        if ctx.thorough:
+            opts = C.A_OPTIONS
+        elif e[0].startswith("legacy"):
+            opts = [C.A_OPTIONS[0], C.A_OPTIONS[(i % (len(C.A_OPTIONS) - 1)) + 1]]
+        else:
+            opts = [C.A_OPTIONS[i % len(C.A_OPTIONS)]]
+        for aq in opts:
+            jobs.append((e, aq, "BAB"))
+        if ctx.thorough:
+            jobs.append((e, rng.choice(C.A_OPTIONS), "AB"))
+    with appboot.Clock(c16_http.NOW):
+        for e, aq, order in jobs:
+            ch.evaluations += 1
+            try:
+                h = C.run_history(app, e, aq, order)
+            except Exception as ex:
+                ch.errors.append(f"{e[0]}: {type(ex).__name__}: {ex}")
+                continue
+            nreq = sum(len(s["trace"]) for s in h["steps"])
+            ch.count("requests", nreq)
+            ch.count(f"entry:{e[0].split(':')[0]}")
+            a_syn = any(r["synthetic"] for s in h["steps"] if s["client"] == "A" for r in s["trace"])
+            b_redirect = any(r.get("location") for s in h["steps"] if s["client"] == "B" for r in s["trace"])
+            if a_syn or b_redirect:
+                ch.nontrivial.add((e[0], repr(aq), order))
+            if h["fails"]:
+                ch.oracle_failures.append({
+                    "kind": "clients", "entry": list(e), "a_query": aq, "order": order, "why": h["fails"][0]["what"],
+                    "failures": h["fails"][:3], "constant_changes": h["constant_changes"][:2],
+                    "requests": [[s["client"], [r["url"] for r in s["trace"]][:6]] for s in h["steps"]]})
+            elif h["constant_changes"]:
+                ch.disagreements.append({"entry": list(e), "a_query": aq, "order": order,
+                                         "what": "a request changed a process-wide constant of the service",
+                                         "constant_changes": h["constant_changes"][:2]})
+            ch.sample({"entry": e[0], "a_query": aq, "order": order, "requests": nreq,
+                       "B_statuses": sorted({r["status"] for s in h["steps"] if s["client"] == "B" for r in s["trace"]})},
+                      limit=3)
+    return ch
+
+
 # ====================================================================== ntp_time
 
 def ch_ntp(ctx) -> Channel:
@@ -561,7 +628,7 @@ def http_failure(channel, method, path, query, who, headers, res, why) -> dict:
             "url": c16_http.build_url(path, query)}
 
 
-HEAVY = ("dash-mpd-v3", "dash-media", "dash-media-by-time", "mps-manifest", "mps-media-seg-by-number",
+HEAVY = ("dash-mpd-v3", "dash-mpd-v1", "dash-mpd-v2", "dash-media", "dash-media-by-time", "mps-manifest", "mps-media-seg-by-number",
          "mps-media-seg-by-time", "mps-init-seg", "mpd-patch", "video", "video-mps", "time", "dash-od-media",
          "view-stream")
 HEADERS = [None, None, None, None, {"X-Requested-With": "XMLHttpRequest"}, {"Accept": "application/json"},
@@ -583,6 +650,8 @@ class HttpFuzz:
     def __init__(self, ctx, ch: Channel, rng):
         import appboot
         import c16_http
+        import c16_state
+        self.S = c16_state
         self.H = c16_http
         self.ctx = ctx
         self.ch = ch
@@ -604,6 +673,8 @@ class HttpFuzz:
         self.pool = c16_http.option_value_pool()
         self.kinds = c16_http.option_kinds()
         self.clients = {}
+        self._snap = c16_state.fast()
+        self._shallow = c16_state.shallow()
         self.seen_sig = set()
         self.appboot = appboot
 
@@ -631,6 +702,16 @@ class HttpFuzz:
             res = self.run_body(method, url, who, headers, body)
         else:
             res = H.run(self.clients[who], method, url, headers)
+        sh = self.S.shallow()
+        if sh != self._shallow:
+            self._shallow = sh
+            snap = self.S.fast()
+            d = self.S.diff(self._snap, snap)
+            self._snap = snap
+            self.ch.disagreements.append({
+                "what": "a request changed a process-wide constant (module / class level container) of the service",
+                "request": {"method": method, "url": url, "who": who, "body": body[0] if body else None},
+                "changed": d[:4]})
         if who != "anon" and (endpoint in ("logout", "api-login") or path.startswith(("/logout", "/api/login"))):
             self.clients[who] = self.fresh_client(who)      # the request may have ended the session
         ch = self.ch
@@ -985,7 +1066,7 @@ def ch_fuzz_http(ctx) -> Channel:
         fz.long_strings()
         fz.sweep()
         fz.every_option()
-        fz.random_gets(ctx.scale(1100, 32000))
+        fz.random_gets(ctx.scale(800, 30000))
         fz.stored_defaults(ctx.scale(20, 300))
         before = c16_http.pools(fz.app)
         fz.mutating(ctx.scale(250, 4000))
@@ -1127,6 +1208,7 @@ def channels(ctx):
     yield ch_loops(ctx)
     yield ch_ntp(ctx)
     yield ch_vod_gate(ctx)
+    yield ch_clients(ctx)
     yield ch_fuzz_mp4(ctx)
     yield ch_fuzz_http(ctx)          # last: its POST/PUT/DELETE part is the only one that may change state
 
@@ -1212,8 +1294,22 @@ def _replay_opt(f) -> dict:
     return {"fails": False, "note": "option no longer registered"}
 
 
+def _replay_clients(f) -> dict:
+    import appboot
+    import c16_clients as C
+    import c16_http
+    app = c16_http.world()
+    with appboot.Clock(c16_http.NOW):
+        h = C.run_history(app, tuple(f["entry"]), f["a_query"], f.get("order", "BAB"))
+    return {"fails": bool(h["fails"]), "failures": h["fails"][:3], "constant_changes": h["constant_changes"][:2],
+            "requests": [[s["client"], [[r["url"], r["status"], r.get("location")] for r in s["trace"]][:5]]
+                         for s in h["steps"]]}
+
+
 def _replay_failure(f) -> dict:
     k = f.get("kind")
+    if k == "clients":
+        return _replay_clients(f)
     if k == "http":
         return _replay_http(f)
     if k == "inject":
@@ -1269,7 +1365,7 @@ def search(ctx, disagreements):
     c2 = types.SimpleNamespace(tier="thorough", thorough=True, seed=ctx.seed + 7919,
                                rng=lambda name: common.rng_for(ctx.seed + 7919, name),
                                scale=lambda q, t: max(q, t // 6))
-    for fn in (ch_opt_errors, ch_inject, ch_loops, ch_ntp, ch_vod_gate, ch_fuzz_http, ch_fuzz_mp4):
+    for fn in (ch_clients, ch_opt_errors, ch_inject, ch_loops, ch_ntp, ch_vod_gate, ch_fuzz_http, ch_fuzz_mp4):
         ch = fn(c2)
         if ch.oracle_failures:
             return ch.oracle_failures[0]
